@@ -14,6 +14,7 @@ import (
 
 	goatorepo "github.com/avos-io/goat/gen/goatorepo"
 	"github.com/avos-io/goat/internal"
+	"github.com/avos-io/goat/internal/verifhook"
 	"github.com/avos-io/goat/types"
 	spb "google.golang.org/genproto/googleapis/rpc/status"
 )
@@ -79,6 +80,7 @@ func (rm *RpcMultiplexer) CallUnaryMethod(
 	if err := rm.readErrorIfDone(); err != nil {
 		return nil, err
 	}
+	verifhook.Point(ctx, "mux.unary.beforeRegister")
 
 	streamId := atomic.AddUint64(&rm.streamCounter, 1)
 
@@ -140,6 +142,7 @@ func (rm *RpcMultiplexer) NewStreamReadWriter(
 	if err := rm.readErrorIfDone(); err != nil {
 		return 0, nil, nil, err
 	}
+	verifhook.Point(ctx, "mux.stream.beforeRegister")
 
 	streamId := atomic.AddUint64(&rm.streamCounter, 1)
 
